@@ -62,11 +62,11 @@ def strategy(tier):
     maxlen = 30 if tier == "quick" else 80
     op = st.tuples(st.sampled_from(OPS_W), st.integers(0, 11), st.integers(0, 11), st.integers(0, 47))
     return st.builds(
-        lambda nv, nuni, ops, vcls: {"nv": nv, "nuni": min(nuni, nv - 1), "vcls": vcls, "ops": [list(o) for o in ops]},
+        lambda nv, nuni, ops, vcls: {"nv": nv, "nuni": min(nuni, nv - 1), "vcls": vcls, "dupuid": bool(vcls and vcls[0] == 0 and len(vcls) == 2), "ops": [list(o) for o in ops]},
         st.integers(2, 5),
         st.integers(0, 2),
         st.lists(op, max_size=maxlen),
-        st.one_of(st.none(), st.lists(st.integers(0, 3), min_size=1, max_size=4)),
+        st.one_of(st.none(), st.lists(st.integers(0, 5), min_size=1, max_size=4)),
     )
 
 
@@ -110,7 +110,7 @@ def compare(w, m, where):
 
 
 def check_case(case):
-    w = World(case["nv"], case.get("nuni", 0), case.get("vcls"))
+    w = World(case["nv"], case.get("nuni", 0), case.get("vcls"), bool(case.get("dupuid")))
     m = Model(len(w.vs), w.uidx)
     classes = set()
     if any(not bool(v) for v in w.vs):
